@@ -349,8 +349,8 @@ class LinearPaths:
     return merged, first_reversed, last_reversed
 
   def __link_merged(self, merged_name, segment_end, is_reversed):
-    to_disconnect = self.segment(segment_end.segment).dovetails_of_end(
-                                                 segment_end.end_type)
+    to_disconnect = list(self.segment(segment_end.segment).dovetails_of_end(
+                                                 segment_end.end_type))
     to_add = []
     for l in to_disconnect:
       l2 = l.clone()
